@@ -10,100 +10,55 @@ differ from one looked-up name to the next).
 import AGH.Lemmas.RewritesRun
 import AGH.Lemmas.RewritesOrder
 import AGH.Lemmas.RewritesDns
+import AGH.Lemmas.RewritesMonitor
 namespace AGH.C06
 open AGH AGH.Bytes
 
 /-! ## The model satisfies the spec monitor -/
 
-/-- Whatever sorted permutation the runtime's sort produces at each name, the
-result of `processRewrites` is acceptable to the spec. -/
+/-- Byte-exact reading, any table at all: whatever sorted permutation the
+runtime's sort produces at each name, the result of `processRewrites` is
+acceptable to the spec. -/
 theorem C06_meets_spec_exact_any_sort (srt : Bytes → Sorter) (tbl : List Entry) (h : Bytes) (q : Nat) :
-    Spec.specExact tbl h q (processRewritesWith srt tbl h q) = true := by
-  unfold Spec.specExact processRewritesWith processRun
-  have hview := find_view (srt h) tbl h q
-  split
-  · next hm =>
-    -- the table does not cover the name: `Result{}`
-    rw [hview.1] at hm
-    have hno : specCnames tbl h = [] := by
-      rw [List.eq_nil_iff_forall_not_mem]
-      intro e he
-      obtain ⟨h1, h2, _⟩ := mem_specCnames.mp he
-      have : tbl.any (matchesHost · h) = true := List.any_eq_true.mpr ⟨e, h1, h2⟩
-      rw [hm] at this; cases this
-    have hcov : tbl.any (Spec.covers · h) = false := by rw [covers_fun_eq]; exact hm
-    simp only [Spec.allowedFrom]
-    change (if (Spec.mostSpecific (specCnames tbl h)).isEmpty = true then _ else _) = true
-    rw [hno, mostSpecific_nil]
-    simp [Spec.finalOK, hcov, Out.empty]
-  · next hm =>
-    apply chase_allowed
-    · have := unvisited_le tbl []
-      omega
-    · left
-      refine ⟨rfl, rfl, rfl, ?_⟩
-      rw [← hview.1]
-      simpa using hm
+    Spec.specExact tbl h q (processRewritesWith srt tbl h q) = true :=
+  meets_spec_exact srt tbl h q
 
 /-! ### The monitor proper (names case-insensitive)
 
-Full statement:
+Until the repair 3bb3ec2 (finding C06-F1) `normalize` lower-cased `Domain` but
+not a CNAME `Answer`, and these statements held only under the hypothesis that
+the configured answers were in lower case.  Now the hypothesis is DERIVED:
+every table that went through `prepareRewrites` has lower-case names
+(`C06_prepared_names_lower`), `CheckHost` lower-cases the queried name, and the
+theorems hold for every configured table `rs`, every name and type and every
+tie-breaking of the sort.  The old witnesses are regression cases in
+`corpus/C06` and `example`s below. -/
 
-    theorem C06_model_meets_spec (tbl h q) :
-        Spec.specOK tbl h q (processRewrites tbl h q) = true
+/-- What `normalize` guarantees: patterns and CNAME answers of a prepared table
+are in lower case. -/
+theorem C06_prepared_names_lower (rs : List Raw) : Spec.LowerNames (prepare rs) :=
+  prepare_lowerNames rs
 
-It is FALSE for the code: `normalize` lower-cases `Domain` but not `Answer`, and
-`CheckHost` lower-cases the queried name, so an entry `Example.com →
-Example.com` is stored as `example.com → Example.com`, is NOT recognised as the
-"name to itself" exception, and yields a CNAME from the name to itself that is
-sent upstream; likewise a CNAME to `B.x.com` is not followed into the entries
-for `b.x.com`.  `C06_counterexample_answer_case` is the witness;
-`C06_model_meets_spec_partial` is the statement for tables whose names are in
-lower case (then the case-insensitive monitor and `specExact` coincide). -/
+/-- `∀ i, specOK i (model i)`: for every configured table, `processRewrites` on
+the prepared table and the lower-cased name (what `CheckHost` passes) is
+acceptable to the case-insensitive monitor. -/
+theorem C06_model_meets_spec (srt : Bytes → Sorter) (rs : List Raw) (h : Bytes) (q : Nat) :
+    Spec.specOK (prepare rs) (lower h) q
+      (processRewritesWith srt (prepare rs) (lower h) q) = true :=
+  monitor_process srt (prepare rs) (lower h) q (prepare_lowerNames rs) (lower_idem h)
 
-theorem C06_counterexample_answer_case :
-    ∃ (tbl : List Entry) (h : Bytes) (q : Nat),
-      Spec.specOK tbl h q (processRewrites tbl h q) = false ∧
-      processRewrites tbl h q = ⟨true, asc "Example.com", []⟩ :=
-  ⟨[ent "Example.com" "Example.com"], asc "example.com", 1, by decide +kernel, by decide +kernel⟩
+/-- The same for the rewrite part of `CheckHost`, any spelling of the name. -/
+theorem C06_checkhost_meets_spec (srt : Bytes → Sorter) (rs : List Raw) (h : Bytes) (q : Nat)
+    (hne : h ≠ []) :
+    Spec.specOK (prepare rs) h q (checkHostWith srt (prepare rs) h q) = true :=
+  monitor_checkhost srt (prepare rs) h q hne (prepare_lowerNames rs)
 
-/-- `∀ i, specOK i (model i)` for tables with lower-case names and a lower-case
-query name (what `CheckHost` passes), for every tie-breaking of the sort. -/
-theorem C06_model_meets_spec_partial (srt : Bytes → Sorter) (tbl : List Entry) (h : Bytes) (q : Nat)
+/-- More generally, for any table (prepared or not) whose names are in lower
+case. -/
+theorem C06_meets_spec_lower_names (srt : Bytes → Sorter) (tbl : List Entry) (h : Bytes) (q : Nat)
     (hl : Spec.LowerNames tbl) (hh : lower h = h) :
-    Spec.specOK tbl h q (processRewritesWith srt tbl h q) = true := by
-  unfold Spec.specOK
-  rw [lowerNames_map hl, hh, process_canon_lower srt tbl h q hl]
-  exact C06_meets_spec_exact_any_sort srt tbl h q
-
-/-- The same for the rewrite part of `CheckHost` (which lower-cases the name). -/
-theorem C06_checkhost_meets_spec_partial (srt : Bytes → Sorter) (tbl : List Entry) (h : Bytes)
-    (q : Nat) (hne : h ≠ []) (hl : Spec.LowerNames tbl) :
-    Spec.specOK tbl h q (checkHostWith srt tbl h q) = true := by
-  unfold checkHostWith
-  rw [if_neg hne]
-  simp only
-  have hspec := C06_model_meets_spec_partial srt tbl (lower h) q hl (lower_idem h)
-  unfold Spec.specOK at hspec ⊢
-  rw [lower_idem] at hspec
-  split
-  · exact hspec
-  · next hr =>
-    unfold Spec.specExact at hspec ⊢
-    have hr' : (Spec.foldOut (processRewritesWith srt tbl (lower h) q)).rewritten = false := by
-      simpa [Spec.foldOut] using hr
-    exact allowedFrom_not_rewritten _ _ _ _ hr' _ _ _ hspec
-
-/-- In terms of the configuration: `prepareRewrites` lower-cases the patterns
-and `CheckHost` the queried name, so the only hypothesis left is that the
-configured CNAME answers are written in lower case. -/
-theorem C06_model_meets_spec_prepared (srt : Bytes → Sorter) (rs : List Raw) (h : Bytes) (q : Nat)
-    (hne : h ≠ [])
-    (hans : ∀ r ∈ rs, (normalize r).typ = .CNAME → lower r.answer = r.answer) :
-    Spec.specOK (prepare rs) h q (checkHostWith srt (prepare rs) h q) = true ∧
-    Spec.specOK (prepare rs) (lower h) q (processRewritesWith srt (prepare rs) (lower h) q) = true :=
-  ⟨C06_checkhost_meets_spec_partial srt (prepare rs) h q hne (prepare_lowerNames rs hans),
-   C06_model_meets_spec_partial srt (prepare rs) (lower h) q (prepare_lowerNames rs hans) (lower_idem h)⟩
+    Spec.specOK tbl h q (processRewritesWith srt tbl h q) = true :=
+  monitor_process srt tbl h q hl hh
 
 /-! ## Termination -/
 
@@ -375,19 +330,16 @@ theorem C06_cname_upstream (srt : Bytes → Sorter) (tbl : List Entry) (h t : By
 
 /-! ## DNS level -/
 
-/-- What the client and the upstream see (question restored, leading CNAME,
-upstream asked only for a pass-through or an unfinished CNAME, local NOERROR
-answer otherwise) is acceptable to the DNS-level monitor — for tables with
-lower-case names (see `C06_counterexample_answer_case`). -/
-theorem C06_dns_meets_spec_partial (srt : Bytes → Sorter) (tbl : List Entry) (h : Bytes) (q : Nat)
-    (hne : h ≠ []) (hl : Spec.LowerNames tbl) :
-    Spec.dnsSpecOK tbl h q (respondWith srt tbl h q) = true := by
-  unfold Spec.dnsSpecOK respondWith
-  rw [obsToOut_render _ h q (checkHost_not_rewritten srt tbl h q) (checkHost_ips_family srt tbl h q)]
-  have := C06_checkhost_meets_spec_partial srt tbl h q hne hl
-  unfold Spec.specOK at this ⊢
-  rw [lower_idem]
-  exact this
+/-- What the client and the upstream see is acceptable to the DNS-level monitor,
+for every configured table, question and upstream rcode: the upstream is asked
+only for a pass-through (under the name itself) or an unfinished CNAME (under
+the canonical name; the reply then carries the ORIGINAL question and the CNAME
+record first, whatever the upstream's rcode); everything else is answered
+locally with NOERROR, possibly empty. -/
+theorem C06_dns_meets_spec (srt : Bytes → Sorter) (rs : List Raw) (h : Bytes) (q rc : Nat)
+    (hne : h ≠ []) :
+    Spec.dnsSpecOK (prepare rs) h q rc (respondWith srt (prepare rs) h q rc) = true :=
+  monitor_dns srt (prepare rs) h q rc hne (prepare_lowerNames rs)
 
 /-! ## Order of entries and tie-breaking of the sort
 
@@ -532,18 +484,24 @@ example : ∀ e ∈ Spec.mostSpecific (specCnames [ent "sub.host.com" "host.com"
 
 /-- DNS level, `TestRewrite`'s third case: upstream asked for the canonical
 name only, original question restored, CNAME record first -/
-example : respond [ent "my.alias.example.org" "example.org"] (asc "my.alias.example.org") 1 =
+example : respond [ent "my.alias.example.org" "example.org"] (asc "my.alias.example.org") 1 0 =
     ⟨[asc "example.org"], 0, asc "my.alias.example.org",
      [⟨5, asc "my.alias.example.org", asc "example.org"⟩, ⟨1, asc "example.org", ups4⟩]⟩ := by
   decide +kernel
 
 /-- DNS level, no data: empty NOERROR, the upstream is not asked -/
-example : respond [ent "host.com" "1.2.3.4" (some true)] (asc "Host.com") 28 =
+example : respond [ent "host.com" "1.2.3.4" (some true)] (asc "Host.com") 28 3 =
     ⟨[], 0, asc "Host.com", []⟩ := by decide +kernel
+
+/-- DNS level, the upstream says NXDOMAIN for the canonical name: the reply keeps
+the rcode, the original question and the CNAME record -/
+example : respond [ent "my.alias.example.org" "example.org"] (asc "my.alias.example.org") 1 3 =
+    ⟨[asc "example.org"], 3, asc "my.alias.example.org",
+     [⟨5, asc "my.alias.example.org", asc "example.org"⟩]⟩ := by decide +kernel
 
 /-- DNS level, CNAME + address from the table -/
 example : respond [ent "sub.host.com" "host.com", ent "host.com" "1.2.3.4" (some true)]
-    (asc "sub.host.com") 1 =
+    (asc "sub.host.com") 1 0 =
     ⟨[], 0, asc "sub.host.com",
      [⟨5, asc "sub.host.com", asc "host.com"⟩, ⟨1, asc "host.com", asc "1.2.3.4"⟩]⟩ := by
   decide +kernel
@@ -554,10 +512,18 @@ example : Spec.LowerNames
   unfold Spec.LowerNames
   decide +kernel
 
-/-- … and fails for the counterexample table -/
-example : ¬ Spec.LowerNames [ent "Example.com" "Example.com"] := by
+/-- … and fails for a table that did not go through `normalize` -/
+example : ¬ Spec.LowerNames [⟨asc "example.com", asc "Example.com", .CNAME, none⟩] := by
   unfold Spec.LowerNames
   decide +kernel
+
+/-- regression, finding C06-F1: "name to itself" written with capitals passes through -/
+example : processRewrites [ent "Example.com" "Example.com"] (asc "example.com") 1 = Out.empty := by
+  decide +kernel
+
+/-- regression, C06-F1: a CNAME target written with capitals is followed into the table -/
+example : processRewrites [ent "a.x.com" "B.x.com", ent "b.x.com" "1.1.1.1" (some true)]
+    (asc "a.x.com") 1 = ⟨true, asc "b.x.com", [asc "1.1.1.1"]⟩ := by decide +kernel
 
 end Examples
 
